@@ -2,7 +2,8 @@
    Statements about the model Model/SSet.v (rows = records with sample values, energy,
    num_occurrences, a unique tag and further data vectors); no size bounds anywhere. *)
 From Coq Require Import List ZArith QArith Qcanon Bool Arith Permutation Sorting.Sorted.
-From Dimod Require Import Base.Util Model.Poly Model.Samples Model.SSet Proofs.SamplesFacts Proofs.SSetFacts.
+From Dimod Require Import Base.Util Model.Poly Model.Samples Model.SSet Proofs.SamplesFacts Proofs.SSetFacts
+  Proofs.SSetAgg Proofs.SSetMore.
 Import ListNotations.
 Open Scope Qc_scope.
 
@@ -157,11 +158,141 @@ Theorem C14_deferred_eq_resolved :
 Proof. exact deferred_eq_resolved. Qed.
 Print Assumptions C14_deferred_eq_resolved.
 
+(* ---- the code shape of aggregate: np.unique + argsort un-sorting + accumulation ---- *)
+(* contract of the mirrored np.unique(axis=0, return_index=True, return_inverse=True) *)
+Theorem C14_np_unique_contract :
+  forall l,
+    let '(u, indices, inverse) := np_unique l in
+    lex_sorted u /\ (forall v, In v u <-> In v (map vals l))
+    /\ (forall k, (k < length u)%nat ->
+          (nth k indices 0 < length l)%nat /\ vals (nth (nth k indices 0%nat) l rowz) = nth k u []
+          /\ forall j, (j < nth k indices 0)%nat -> vals (nth j l rowz) <> nth k u [])
+    /\ length inverse = length l
+    /\ (forall i, (i < length l)%nat -> nth (nth i inverse 0%nat) u [] = vals (nth i l rowz)).
+Proof. exact np_unique_contract. Qed.
+Print Assumptions C14_np_unique_contract.
+
+Theorem C14_aggregate_np_eq_aggregate_rows : forall l, aggregate_np l = aggregate_rows l.
+Proof. exact aggregate_np_eq_aggregate_rows. Qed.
+Print Assumptions C14_aggregate_np_eq_aggregate_rows.
+
+(* the un-sorting is right for ANY order in which the distinct rows are enumerated *)
+Theorem C14_aggregate_independent_of_unique_order :
+  forall U l, Permutation U (np_unique_rows l) -> unsort_accumulate U l = aggregate_rows l.
+Proof. exact aggregate_independent_of_unique_order. Qed.
+Print Assumptions C14_aggregate_independent_of_unique_order.
+
+Theorem C14_aggregate_np_multiset : forall l v, weight (aggregate_np l) v = weight l v.
+Proof. exact aggregate_np_multiset. Qed.
+Print Assumptions C14_aggregate_np_multiset.
+
+Theorem C14_aggregate_np_nodup : forall l, NoDup (map vals (aggregate_np l)).
+Proof. exact aggregate_np_nodup. Qed.
+Print Assumptions C14_aggregate_np_nodup.
+
+Theorem C14_aggregate_np_first_seen : forall l, map strip (aggregate_np l) = map strip (firsts l []).
+Proof. exact aggregate_np_first_seen. Qed.
+Print Assumptions C14_aggregate_np_first_seen.
+
+(* ---- append_variables / append_data_vectors ---- *)
+Theorem C14_append_variables_frame :
+  forall K nls add sortl s s',
+    append_ss K nls add sortl s = Ok s' ->
+    (forall r, In r (rws s) -> length (vals r) = length (labels s)) ->
+    vt s' = vt s /\ info s' = info s /\ fields s' = fields s
+    /\ (forall v, In v (labels s') <-> In v (labels s) \/ In v nls)
+    /\ exists ad, (ad = add \/ exists a, add = [a] /\ ad = repeat a (length (rws s)))
+                  /\ length ad = length (rws s)
+                  /\ Forall2 (appended_row (labels s) nls (labels s')) (rws s') (combine (rws s) ad).
+Proof. exact append_frame. Qed.
+Print Assumptions C14_append_variables_frame.
+
+Theorem C14_append_variables_fail_unchanged :
+  forall K nls add sortl s s', append_ss K nls add sortl s = Fail s' -> s' = s.
+Proof. exact append_fail_unchanged. Qed.
+Print Assumptions C14_append_variables_fail_unchanged.
+
+Theorem C14_append_data_vectors_frame :
+  forall name vec s s',
+    append_vec_ss name vec s = Ok s' ->
+    labels s' = labels s /\ vt s' = vt s /\ info s' = info s /\ fields s' = fields s ++ [name]
+    /\ length vec = length (rws s) /\ ~ In name (fields s)
+    /\ Forall2 (fun r' (rx : row * Qc) => vals r' = vals (fst rx) /\ en r' = en (fst rx) /\ oc r' = oc (fst rx)
+                                          /\ tag r' = tag (fst rx) /\ extra r' = extra (fst rx) ++ [snd rx])
+               (rws s') (combine (rws s) vec).
+Proof. exact append_vec_frame. Qed.
+Print Assumptions C14_append_data_vectors_frame.
+
+(* ---- as_samples: the accepted forms agree ---- *)
+Theorem C14_dict_row_value : forall d v, row_value (map fst d) (map snd d) v = assoc d v.
+Proof. exact dict_row_value. Qed.
+Print Assumptions C14_dict_row_value.
+
+Theorem C14_list_of_dicts_values :
+  forall l0 r0 rest first rows,
+    as_samples_dicts ((l0, r0) :: rest) = Some (first, rows) ->
+    first = l0 /\ exists rows', rows = r0 :: rows'
+    /\ Forall2 (fun row' (lr : list label * list Qc) =>
+                  (forall v, In v (fst lr) <-> In v first)
+                  /\ forall v, In v first -> row_value first row' v = row_value (fst lr) (snd lr) v) rows' rest.
+Proof. exact as_samples_dicts_values. Qed.
+Print Assumptions C14_list_of_dicts_values.
+
+Theorem C14_forms_agree :
+  forall ls1 row1 ls2 row2,
+    NoDup ls1 -> length row1 = length ls1 ->
+    (forall v, In v ls1 -> row_value ls1 row1 v = row_value ls2 row2 v) ->
+    reindex_row ls1 ls2 row2 = row1.
+Proof. exact forms_agree. Qed.
+Print Assumptions C14_forms_agree.
+
+Theorem C14_dict_and_labelled_array_agree :
+  forall d ls row,
+    NoDup ls -> length row = length ls ->
+    (forall v, In v ls -> assoc d v = row_value ls row v) ->
+    reindex_row ls (map fst d) (map snd d) = row.
+Proof. exact dict_and_labelled_array_agree. Qed.
+Print Assumptions C14_dict_and_labelled_array_agree.
+
+Theorem C14_sampleset_form_values :
+  forall K sortl s i v,
+    In v (labels s) ->
+    row_value (fst (as_samples_sset (sort_columns K sortl s))) (nth i (snd (as_samples_sset (sort_columns K sortl s))) []) v
+    = row_value (labels s) (nth i (map vals (rws s)) []) v.
+Proof. exact sset_form_values. Qed.
+Print Assumptions C14_sampleset_form_values.
+
+(* ---- from_samples(sort_labels) ---- *)
+Theorem C14_sorted_labels_sorted :
+  forall K ls, sortable K ls = true ->
+    Permutation (sorted_labels K true ls) ls
+    /\ StronglySorted (fun a b => (snd (lkey K a) <= snd (lkey K b))%nat) (sorted_labels K true ls).
+Proof. exact sorted_labels_sorted. Qed.
+Print Assumptions C14_sorted_labels_sorted.
+
+Theorem C14_sorted_labels_unsortable : forall K sortl ls, sortable K ls = false -> sorted_labels K sortl ls = ls.
+Proof. exact sorted_labels_unsortable. Qed.
+Print Assumptions C14_sorted_labels_unsortable.
+
+Theorem C14_sort_columns_unsortable_id :
+  forall K sortl s,
+    sortable K (labels s) = false -> NoDup (labels s) ->
+    (forall r, In r (rws s) -> length (vals r) = length (labels s)) ->
+    sort_columns K sortl s = s.
+Proof. exact sort_columns_unsortable_id. Qed.
+Print Assumptions C14_sort_columns_unsortable_id.
+
 (* the hypotheses are satisfiable on non-trivial data *)
 Example C14_aggregate_example :
   map (fun r => (tag r, oc r)) (aggregate_rows
     [mkRow [1; 0] 0 2%Z 0 []; mkRow [0; 0] 1 1%Z 1 []; mkRow [1; 0] 0 3%Z 2 []; mkRow [0; 0] 1 1%Z 3 []])
   = [(0%nat, 5%Z); (1%nat, 2%Z)].
+Proof. vm_compute. reflexivity. Qed.
+
+Example C14_aggregate_np_example :
+  map (fun r => (tag r, oc r)) (aggregate_np
+    [mkRow [1; 0] 0 2%Z 0 []; mkRow [0; 0] 1 1%Z 1 []; mkRow [1; 0] 0 3%Z 2 []; mkRow [0; 1] 1 1%Z 3 []; mkRow [0; 0] 1 4%Z 4 []])
+  = [(0%nat, 5%Z); (1%nat, 5%Z); (3%nat, 1%Z)].
 Proof. vm_compute. reflexivity. Qed.
 
 Example C14_slice_example :
